@@ -44,6 +44,9 @@ def run(c, facts, tier):
     b = peg.Builder(facts)
     g = peg.Grammar(b)
     scope = b.scope(facts.fn(SPECIAL).module)
+    from .. import glue
+
+    glue.obligations(c, facts, b, "C14")
     c.trusted = ["winnow 0.6.7 semantics in vlib/peg.py", "E1 extractor", "spec/printf.json (find(1) -printf tables + LiPE brace directives)"]
     c.explanation = (
         "Table and shape rules on the combinator IR of format.rs: escape table, octal escape bounded to exactly three digits and tried before '\\0', fall-back backslash, "
